@@ -94,7 +94,7 @@ def run_translators(ctx):
     out["StopChain.v"] = "ok" if rc == 0 else "rc=%d %s" % (rc, (o + e)[-300:])
     if rc != 0:
         ctx.broke("translator", "gen_stopchain.py", o + e)
-    ctx.coverage.setdefault("translator", {}).update(out)
+    ctx.coverage["fista_translators"] = out
 
 # ------------------------------------------------------------------ generators
 def lip_mode(rng, P, prob):
